@@ -208,8 +208,14 @@ def bgp_classes():
             a = cat([B([0xc0 | (0x10 if ext else 0), 8]), B(be(n - n % 4, 2) if ext else [n - n % 4]), B(fill(n - n % 4))])
             add('attr_extended_length_255_256', C4, [E.update([], BASE_ATTRS() + [a], NL).d])
     # attribute block ends inside an attribute: after flags, after code, after one length octet of two, value short by 1
-    for tail in ([0x40], [0x40, 4], [0x50, 4], [0x50, 4, 0], [0x80, 4, 4], [0x80, 4, 4, 1, 2, 3], [0xc0, 8, 0]):
+    # ... with NLRI behind the block, with nothing behind it (the block end is the frame end: a read past
+    # the header runs off the frame), and with only withdrawn routes in front
+    for tail in ([0x40], [0x40, 4], [0x50, 4], [0x50, 4, 0], [0x50, 4, 0, 4], [0x80, 4, 4], [0x80, 4, 4, 1, 2, 3], [0xc0, 8, 0],
+                 [0xd0, 8], [0xd0, 8, 0], [0x90, 14, 0], [0x10, 99, 1]):
         add('attr_block_dangling', C4, [E.update([], BASE_ATTRS() + [B(tail)], NL).d])
+        add('attr_block_dangling_at_frame_end', C4, [E.update([], BASE_ATTRS() + [B(tail)], []).d])
+        add('attr_block_dangling_at_frame_end', C4, [E.update([], [B(tail)], []).d])
+        add('attr_block_dangling_at_frame_end', C4, [E.update(NL, [B(tail)], []).d])
     # duplicates of every known code (first wins; MP twice is a reset)
     for code in (1, 2, 3, 4, 5, 8, 14, 15, 17, 99):
         val = {1: [0], 2: [], 3: [1, 1, 1, 1], 14: E.mp_reach_value(E.IPV6, fill(16), [E.prefix(8, [0x20])]).d,
